@@ -210,7 +210,7 @@ reg("C06", harness="c06_mutants", level="fault_enumeration", deadline=(360, 2400
                "accepted only if the independent decoder finds the mutated bytes valid with equal output; guard pages catch any write beyond "
                "avail_out; a driver horizon catches non-termination.",
     level_note="second-order mutants and seeds beyond 64 bytes are not enumerated; trusted: ref/ref_inflate.c verdict/classification.",
-    runs=[dict(flavour="sim", part="faults"), dict(flavour="sim", part="short"), dict(flavour="sim", part="closure")],
+    runs=[dict(flavour="sim", part="faults"), dict(flavour="sim", part="short"), dict(flavour="sim", part="closure"), dict(flavour="sim", part="explore")],
     rule="case = (candidate bytes, mode, driver, output capacity, kernel); a candidate is non-trivial iff the reference verdict differs from "
          "VALID (truncated or invalid); distinct_nontrivial counts distinct such candidates (hash of bytes+mode).")
 
